@@ -21,7 +21,7 @@ RULE = (
     "message texts include the empty string and repeated texts; plain and callback delivery; 1..2 socket ids; in a third of the "
     "scenarios one endpoint closes a socket part-way and opens it again, possibly with the other delivery mode; an eighth of the scenarios use "
     "broadcast channels: every endpoint broadcasts 0..2 messages, receives what the others broadcast and may then drop its channel) plus a schedule = list of small ints choosing the next thread at every statement of the hub; Hypothesis draws both; "
-    "both tiers enumerate every single-preemption schedule of five fixed scripts; thorough also enumerates all schedules with <=3 preemptions for small two-endpoint scripts.  Non-trivial = >=1 "
+    "both tiers enumerate every single-preemption schedule of five fixed scripts and every excursion (another thread runs 1..10 statements, then the interrupted one goes on) of two of them; thorough also enumerates all schedules with <=3 preemptions for small two-endpoint scripts.  Non-trivial = >=1 "
     "preemption inside a hub method and >=2 messages sent; distinct by (scripts, schedule)"
 )
 ASSUMPTIONS = [
@@ -531,6 +531,31 @@ def shard(ctx: Ctx) -> None:
                 except Failure as f:
                     ctx.fail(f)
     stt.exhaustive_domains["five fixed scripts x every single-preemption schedule"] = n_sys
+    # ... and every short excursion (both tiers): at one position another thread runs for 1..10 statements, then the
+    # interrupted thread goes on -- what it takes to land one operation between two lock sections of another
+    n_exc = 0
+    for scn0 in fixed[:2]:
+        try:
+            base = run(dict(scn0, schedule=[]))
+        except Failure:
+            continue  # reported above
+        nsteps = base["steps"] if not base.get("inconclusive") else 0
+        for pos in range(nsteps + 1):
+            for q in range(1, 11):
+                k += 1
+                if k % ctx.nshards != ctx.shard:
+                    continue
+                scn = dict(scn0, schedule=[0] * pos + [1] + [0] * (q - 1) + [1])
+                n_exc += 1
+                try:
+                    info = run(scn)
+                    if not info.get("inconclusive"):
+                        stt.case(scn, info["preemptions"] >= 2 and info.get("sent", 0) >= 2, ["excursion"])
+                    else:
+                        stt.rejected["inconclusive:" + info["inconclusive"].split(":")[0]] += 1
+                except Failure as f:
+                    ctx.fail(f)
+    stt.exhaustive_domains["two fixed scripts x every excursion of 1..10 statements"] = n_exc
     if ctx.thorough():
         base = {
             "kind": "plan", "names": ["a", "b"], "extra_nb": [], "disconnect": {"a": False, "b": False},
